@@ -198,3 +198,21 @@ _R10 = {
 for _pid, _t in _R10.items():
     _lvl, _tech, _txt = CHECKS[_pid]
     CHECKS[_pid] = (_lvl, _tech, _txt + _t)
+
+# ---- additions of round 11 / round L / F15
+_R11 = {
+    "C01": " Round 11: the stand-alone proxy relays every value of a repeated response field (C03.H borrowed); shim session IDs do not depend on the request.",
+    "C03": " Round 11: the relayed response is parsed from the agent's upload itself (C01.W borrowed).",
+    "C04": " Round 11: the URL of the fetch does not depend on the request ID.",
+    "C05": " Round 11: the handler chain serves the parsed request itself, not a copy re-bound to a deadline (C02.I borrowed).",
+    "C06": " Round 11: waits between upload attempts are bounded by a constant.",
+    "C07": " Round 11: arguments of Grow and rand.*n that depend on outside values are provably in range.",
+    "C10": " Round 11 / F15: only Scheme and Host of the cookie URL are set; after the wrapped handler returned, Set-Cookie trailers (declared or prefixed) are deleted on every path.",
+    "C12": " Round 11: ReadServerMessages returns what it took from the queue (C11.O borrowed); session IDs are the counter only; Grow/index arguments on the open path are in range.",
+    "C14": " Round 11: with Sec-Fetch-Dest frame/embed/object/document 'not framed' is never answered before the Referer was examined; ModifyResponse is the function ShimBody returned.",
+    "C15": " Round 11: the bridge backend's server keeps net/http's request limits; the frontend never reads a connection itself.",
+    "C19": " Round 11: (*blob).read fails only with a datastore error; forwardResponse never copies a field with Header.Set.",
+}
+for _pid, _t in _R11.items():
+    _lvl, _tech, _txt = CHECKS[_pid]
+    CHECKS[_pid] = (_lvl, _tech, _txt + _t)
